@@ -5,6 +5,12 @@
 //!   amt <currency> <msat|none>     InvoiceBuilder::amount_milli_satoshis -> hrp string
 //!   chk <hrp hex> <symbols hex>    bech32 checksum symbols (from the real encoder's output)
 //!   to5 <bytes hex> / to8 <symbols hex>   Base32Iterable / FromBase32 for Vec<u8>
+//!   ts <unix seconds>              PositiveTimestamp::from_unix_timestamp -> ok | err TimestampOutOfBounds
+//!   dlen / mlen / hops <n>         Description::new / payment_metadata / PrivateRoute::new on a length -> ok | err ..
+//!   intenc <u64>                   an `x` field as ser.rs writes it: announced length, digits
+//! implementation-side oracles (no model involved): the parser never panics on a checksum-valid string;
+//! the builder accepts every timestamp the 35-bit wire field can carry and nothing else;
+//! parse(serialize(x)) == x for every built / parsed object; serialising a parsed object never panics.
 //! model c18b12 (BOLT-12, lightning::offers): see `run_b12`.
 //! Trusted dependencies: secp256k1 (ECDSA recovery / Schnorr) and the `bech32` crate.
 use bitcoin::hashes::{sha256, Hash};
@@ -93,7 +99,7 @@ fn dump(input: &str, signed: &SignedRawBolt11Invoice) -> String {
 /// the real parser on one string: (answer line, class, parsed)
 fn real_b11(s: &str) -> (String, String, Option<SignedRawBolt11Invoice>) {
 	match guarded(AssertUnwindSafe(|| s.parse::<SignedRawBolt11Invoice>())) {
-		Err(p) => (format!("panic {}", p), "b11:panic".into(), None),
+		Err(_) => ("panic".to_string(), "b11:panic".into(), None),
 		Ok(Err(e)) => { let n = err_name(&e); (format!("err {}", n), format!("b11:err:{}", n), None) },
 		Ok(Ok(signed)) => (dump(s, &signed), "b11:ok".into(), Some(signed)),
 	}
@@ -101,9 +107,36 @@ fn real_b11(s: &str) -> (String, String, Option<SignedRawBolt11Invoice>) {
 
 struct B11 { secp: Secp256k1<bitcoin::secp256k1::All>, sk: SecretKey, pk: PublicKey, n_ok: u64, n_mut1: u64, n_mut2: u64, outcomes: [u64; 3] }
 
+/// report an implementation-side violation, at most twice per kind (text before the first `(` / `:`),
+/// so that one defect hit by many generated inputs does not crowd out the others
+fn ofail(rec: &mut Rec, text: String) {
+	static SEEN: std::sync::Mutex<Option<std::collections::BTreeMap<String, u32>>> = std::sync::Mutex::new(None);
+	let kind = text.split(|c| c == '(' || c == ':').next().unwrap_or("").to_string();
+	let mut g = SEEN.lock().unwrap();
+	let n = g.get_or_insert_with(Default::default).entry(kind).or_insert(0);
+	*n += 1;
+	if *n <= 2 { rec.oracle_fail(text); }
+}
+
+/// does the string carry a valid bech32 checksum (judged by the harness' own polymod)?
+fn checksum_valid(s: &str) -> bool {
+	let l = s.to_ascii_lowercase();
+	let pos = match l.rfind('1') { Some(p) if p > 0 => p, _ => return false };
+	let mut syms = vec![];
+	for c in l[pos + 1..].bytes() { match CHARSET.iter().position(|x| *x == c) { Some(i) => syms.push(i as u8), None => return false } }
+	if syms.len() < 6 || (s.bytes().any(|c| c.is_ascii_uppercase()) && s.bytes().any(|c| c.is_ascii_lowercase())) { return false; }
+	let mut v = hrp_expand(l[..pos].as_bytes());
+	v.extend_from_slice(&syms);
+	polymod(&v) == 1
+}
+
 fn emit_b11(rec: &mut Rec, s: &str, class_prefix: &str) -> Option<SignedRawBolt11Invoice> {
 	let (ans, class, parsed) = real_b11(s);
-	if ans.starts_with("panic") { rec.oracle_fail(format!("parser panicked on {:?}: {}", s, ans)); }
+	if ans == "panic" {
+		let msg = guarded(AssertUnwindSafe(|| s.parse::<SignedRawBolt11Invoice>())).err().unwrap_or_default();
+		ofail(rec, format!("parser panicked on a {} string ({}): {}", if checksum_valid(s) { "checksum-valid" } else { "malformed" }, msg, s));
+	}
+	if let Some(signed) = &parsed { reserialize_oracle(rec, s, signed); }
 	rec.case(&format!("b11 {}", hex(s.as_bytes())), &ans, &format!("{}{}", class_prefix, class), true);
 	parsed
 }
@@ -119,6 +152,19 @@ fn emit_sem(rec: &mut Rec, s: &str, signed: &SignedRawBolt11Invoice, class_prefi
 	};
 	let class = format!("{}sem:{}", class_prefix, ans.replace(' ', ":"));
 	rec.case(&format!("sem {} {}", hex(s.as_bytes()), if sig_valid { 1 } else { 0 }), &ans, &class, true);
+}
+
+/// impl oracle on every successfully parsed string: serialising the parsed object does not panic and
+/// parses back to an equal object (parse ∘ serialize = id on the parser's range)
+fn reserialize_oracle(rec: &mut Rec, s: &str, signed: &SignedRawBolt11Invoice) {
+	match guarded(AssertUnwindSafe(|| signed.to_string())) {
+		Err(p) => ofail(rec, format!("serialiser panicked on a parsed invoice ({}): {}", p, s)),
+		Ok(out) => match guarded(AssertUnwindSafe(|| out.parse::<SignedRawBolt11Invoice>())) {
+			Err(p) => ofail(rec, format!("parser panicked on a re-serialised invoice ({}): {}", p, out)),
+			Ok(Err(e)) => ofail(rec, format!("parse(serialize(x)) fails ({:?}): x parsed from {} serialises to {}", e, s, out)),
+			Ok(Ok(back)) => if &back != signed { ofail(rec, format!("parse(serialize(x)) != x: x parsed from {} serialises to {}", s, out)); },
+		},
+	}
 }
 
 fn rand_pubkey(rng: &mut Rng, secp: &Secp256k1<bitcoin::secp256k1::All>) -> PublicKey {
@@ -156,19 +202,26 @@ fn rand_fallback(rng: &mut Rng) -> Fallback {
 
 struct Want { amount: Option<u64>, ts: u64, expiry: Option<u64>, desc: Bolt11InvoiceDescription, hash: [u8; 32], secret: [u8; 32], cltv: u64, payee_n: bool, n_fallbacks: usize, routes: Vec<RouteHint>, meta: Option<(Vec<u8>, bool)>, mpp: bool }
 
-fn build_invoice(rng: &mut Rng, ctx: &B11) -> Option<(Bolt11Invoice, Want)> {
+/// the largest timestamp the BOLT-11 wire format carries: seven 5-bit symbols (a constant of the
+/// SPECIFICATION, deliberately not taken from lightning-invoice's MAX_TIMESTAMP)
+const WIRE_TS_MAX: u64 = (1u64 << 35) - 1;
+/// the largest payload a tagged field carries: a 10-bit length of 5-bit symbols = 639 whole bytes
+const WIRE_FIELD_BYTES_MAX: usize = 1023 * 5 / 8;
+
+fn build_invoice(rng: &mut Rng, ctx: &B11) -> Result<(Bolt11Invoice, Want), (CreationError, Want)> {
 	let currency = match rng.below(5) { 0 => Currency::Bitcoin, 1 => Currency::BitcoinTestnet, 2 => Currency::Regtest, 3 => Currency::Simnet, _ => Currency::Signet };
 	let desc = if rng.chance(1, 3) { Bolt11InvoiceDescription::Hash(Sha256(sha256::Hash::from_byte_array(rng.bytes32()))) }
 		else { Bolt11InvoiceDescription::Direct({ let mx = if rng.chance(1, 8) { 639 } else { 40 }; Description::new(rand_string(rng, mx)).unwrap() }) };
-	let ts = match rng.below(5) { 0 => 0, 1 => MAX_TIMESTAMP, 2 => rng.below(MAX_TIMESTAMP + 1), 3 => 1u64 << rng.below(35), _ => 1_700_000_000 + rng.below(100_000_000) };
+	let ts = match rng.below(16) { 0..=2 => 0, 3..=5 => WIRE_TS_MAX, 6 => WIRE_TS_MAX - 1, 7 => 1, 8 => WIRE_TS_MAX + 1 + (rng.next() >> rng.below(64)).min(u64::MAX - WIRE_TS_MAX - 1),
+		9 | 10 => rng.below(WIRE_TS_MAX + 1), 11 | 12 => (1u64 << rng.below(36)) - rng.below(2), _ => 1_700_000_000 + rng.below(100_000_000) };
 	let w = Want {
-		amount: if rng.chance(1, 5) { None } else { Some(rand_amount(rng)) }, ts,
+		amount: if rng.chance(1, 5) { None } else if rng.chance(1, 20) { Some(u64::MAX / 10 + 1 + (rng.next() >> rng.below(64)).min(u64::MAX - u64::MAX / 10 - 1)) } else { Some(rand_amount(rng)) }, ts,
 		expiry: if rng.chance(1, 2) { None } else { Some(match rng.below(4) { 0 => 0, 1 => u64::MAX, 2 => rng.next(), _ => rng.below(100_000) }) },
 		desc, hash: rng.bytes32(), secret: rng.bytes32(),
 		cltv: match rng.below(4) { 0 => 0, 1 => u64::MAX, 2 => rng.next(), _ => rng.below(2000) },
 		payee_n: rng.chance(1, 2), n_fallbacks: rng.below(3) as usize,
 		routes: (0..rng.below(3)).map(|_| rand_route(rng, &ctx.secp)).collect(),
-		meta: if rng.chance(1, 3) { let mx = if rng.chance(1, 6) { 640 } else { 50 }; let n = rng.below(mx) as usize; Some((rng.bytes(n), rng.chance(1, 2))) } else { None },
+		meta: if rng.chance(1, 3) { let n = match rng.below(12) { 0 => 639, 1 => 640 + rng.below(3) as usize, 2 => rng.below(640) as usize, _ => rng.below(50) as usize }; Some((rng.bytes(n), rng.chance(1, 2))) } else { None },
 		mpp: rng.chance(1, 2),
 	};
 	let order = rng.below(3);
@@ -198,7 +251,25 @@ fn build_invoice(rng: &mut Rng, ctx: &B11) -> Option<(Bolt11Invoice, Want)> {
 		1 => finish!(common!(InvoiceBuilder::new(currency).payment_secret(PaymentSecret(w.secret)).duration_since_epoch(d).payment_hash(PaymentHash(w.hash))).min_final_cltv_expiry_delta(w.cltv).invoice_description(w.desc.clone())),
 		_ => finish!(common!(InvoiceBuilder::new(currency).min_final_cltv_expiry_delta(w.cltv).invoice_description(w.desc.clone()).payment_hash(PaymentHash(w.hash)).payment_secret(PaymentSecret(w.secret)).duration_since_epoch(d))),
 	};
-	match r { Ok(i) => Some((i, w)), Err(_) => None }
+	match r { Ok(i) => Ok((i, w)), Err(e) => Err((e, w)) }
+}
+
+/// impl oracle on a builder verdict: the builder fails exactly when an input is outside what the wire
+/// format can carry (timestamp beyond 35 bits, pico amount beyond u64, metadata beyond 639 bytes)
+fn builder_verdict_oracle(rec: &mut Rec, w: &Want, res: Result<(), &CreationError>) {
+	let ts_bad = w.ts > WIRE_TS_MAX;
+	let amt_bad = w.amount.map_or(false, |a| a.checked_mul(10).is_none());
+	let meta_bad = w.meta.as_ref().map_or(false, |m| m.0.len() > WIRE_FIELD_BYTES_MAX);
+	let desc = format!("ts={} amount_msat={:?} metadata_len={:?}", w.ts, w.amount, w.meta.as_ref().map(|m| m.0.len()));
+	match res {
+		Ok(()) => if ts_bad || amt_bad || meta_bad { ofail(rec, format!("builder accepted an input the wire format cannot carry: {}", desc)); },
+		Err(e) => {
+			if !(ts_bad || amt_bad || meta_bad) {
+				if matches!(e, CreationError::TimestampOutOfBounds) { ofail(rec, format!("builder rejected a timestamp the wire format can carry ({:?}): {}", e, desc)); }
+				else { ofail(rec, format!("builder rejected a valid input ({:?}): {}", e, desc)); }
+			}
+		},
+	}
 }
 
 /// impl oracle: the built invoice parses back to an equal object exposing what was put in
@@ -254,6 +325,247 @@ fn classify_mutant(rec: &mut Rec, ctx: &mut B11, orig: &Bolt11Invoice, s: &str, 
 	}
 }
 
+
+fn creation_verdict<T>(r: &Result<T, CreationError>) -> String { match r { Ok(_) => "ok".to_string(), Err(e) => format!("err {}", err_name(e)) } }
+
+/// `ts <n>`: the constructor's verdict on one timestamp (compared with the model's translated bound),
+/// plus the implementation-side oracle "accepted iff the 35-bit wire field can carry it"
+fn ts_case(rec: &mut Rec, ts: u64) {
+	let r = match guarded(AssertUnwindSafe(|| PositiveTimestamp::from_unix_timestamp(ts))) { Ok(r) => r, Err(p) => { ofail(rec, format!("from_unix_timestamp({}) panicked: {}", ts, p)); return; } };
+	let r2 = PositiveTimestamp::from_duration_since_epoch(Duration::new(ts, 999_999_999));
+	let r3 = PositiveTimestamp::from_system_time(std::time::UNIX_EPOCH + Duration::from_secs(ts.min(1 << 40)));
+	if r.is_ok() != r2.is_ok() || (ts <= 1 << 40 && r.is_ok() != r3.is_ok()) { ofail(rec, format!("PositiveTimestamp constructors disagree on {}: unix {:?} duration {:?} system_time {:?}", ts, r, r2, r3)); }
+	if let Ok(t) = &r2 { if t.as_unix_timestamp() != ts || t.as_duration_since_epoch() != Duration::from_secs(ts) { ofail(rec, format!("PositiveTimestamp {} reads back as {}", ts, t.as_unix_timestamp())); } }
+	match &r {
+		Ok(_) if ts > WIRE_TS_MAX => ofail(rec, format!("builder accepted a timestamp the 35-bit field cannot carry: {}", ts)),
+		Err(e) if ts <= WIRE_TS_MAX => ofail(rec, format!("builder rejected a timestamp the wire format can carry ({:?}): {}", e, ts)),
+		_ => {},
+	}
+	rec.case(&format!("ts {}", ts), &creation_verdict(&r), if r.is_ok() { "ts:ok" } else { "ts:err" }, true);
+}
+
+/// `dlen` / `mlen` / `hops <n>`: length verdicts of Description::new / payment_metadata / PrivateRoute::new
+fn len_case(rec: &mut Rec, kind: &str, n: usize) {
+	let secp = Secp256k1::new();
+	let pk = PublicKey::from_secret_key(&secp, &SecretKey::from_slice(&[0x42; 32]).unwrap());
+	let (ans, limit_ok) = match kind {
+		"dlen" => (creation_verdict(&Description::new("a".repeat(n))), n <= WIRE_FIELD_BYTES_MAX),
+		"mlen" => (creation_verdict(&InvoiceBuilder::new(Currency::Bitcoin).description("d".into()).payment_hash(PaymentHash([1; 32])).duration_since_epoch(Duration::from_secs(1))
+			.min_final_cltv_expiry_delta(18).payment_secret(PaymentSecret([2; 32])).payment_metadata(vec![7; n]).build_raw()), n <= WIRE_FIELD_BYTES_MAX),
+		_ => (creation_verdict(&PrivateRoute::new(RouteHint((0..n).map(|i| RouteHintHop { src_node_id: pk, short_channel_id: i as u64, fees: RoutingFees { base_msat: 1, proportional_millionths: 2 },
+			cltv_expiry_delta: 3, htlc_minimum_msat: None, htlc_maximum_msat: None }).collect()))), n * 51 <= WIRE_FIELD_BYTES_MAX),
+	};
+	if (ans == "ok") != limit_ok { ofail(rec, format!("{} {}: constructor says {} but the 10-bit length field {} carry it", kind, n, ans, if limit_ok { "can" } else { "cannot" })); }
+	rec.case(&format!("{} {}", kind, n), &ans, &format!("{}:{}", kind, if ans == "ok" { "ok" } else { "err" }), true);
+}
+
+/// sign `hrp` + `data` (5-bit symbols, no signature yet) with the fixed key: 65 bytes
+fn sign_data(ctx: &B11, hrp: &str, data: &[u8]) -> Vec<u8> {
+	let mut pre = hrp.as_bytes().to_vec();
+	let mut padded = data.to_vec();
+	let overhang = (padded.len() * 5) % 8;
+	if overhang > 0 { padded.push(0); if overhang < 3 { padded.push(0); } }
+	let (mut acc, mut bits) = (0u32, 0u32);
+	for d in padded.iter() { acc = (acc << 5) | *d as u32; bits += 5; if bits >= 8 { bits -= 8; pre.push((acc >> bits) as u8); } }
+	let h = sha256::Hash::hash(&pre);
+	let (rid, sig) = ctx.secp.sign_ecdsa_recoverable(&Message::from_digest(h.to_byte_array()), &ctx.sk).serialize_compact();
+	let mut v = sig.to_vec(); v.push(rid.to_i32() as u8); v
+}
+
+/// a raw invoice built from the public structs, really signed: serialise, parse back, compare;
+/// `parse(serialize(x)) == x` is the implementation-side oracle, the string also goes to the model
+fn raw_roundtrip(rec: &mut Rec, ctx: &B11, raw: RawBolt11Invoice, what: &str) -> Option<String> {
+	let signed = match guarded(AssertUnwindSafe(|| raw.clone().sign::<_, ()>(|h| Ok(ctx.secp.sign_ecdsa_recoverable(h, &ctx.sk))))) {
+		Ok(Ok(s)) => s, Ok(Err(_)) => return None, Err(p) => { ofail(rec, format!("signing / hashing panicked ({}) for {}", p, what)); return None; } };
+	let s = match guarded(AssertUnwindSafe(|| signed.to_string())) { Ok(s) => s, Err(p) => { ofail(rec, format!("serialiser panicked ({}) for {}", p, what)); return None; } };
+	match guarded(AssertUnwindSafe(|| s.parse::<SignedRawBolt11Invoice>())) {
+		Err(p) => ofail(rec, format!("parser panicked on a checksum-valid string ({}) for {}: {}", p, what, s)),
+		Ok(Err(e)) => ofail(rec, format!("parse(serialize(x)) fails ({:?}) for {}: {}", e, what, s)),
+		Ok(Ok(back)) => if back != signed { ofail(rec, format!("parse(serialize(x)) != x for {}: {}", what, s)); },
+	}
+	emit_b11(rec, &s, "bound:");
+	Some(s)
+}
+
+fn minimal_fields(extra: Vec<TaggedField>) -> Vec<RawTaggedField> {
+	let mut f = vec![TaggedField::PaymentHash(PaymentHash([3; 32])), TaggedField::Description(Description::new("b".into()).unwrap()), TaggedField::PaymentSecret(PaymentSecret([4; 32]))];
+	f.extend(extra);
+	f.into_iter().map(RawTaggedField::KnownSemantics).collect()
+}
+
+/// (8) numeric boundaries and (9) malformed checksummed streams
+fn run_bounds(rec: &mut Rec, rng: &mut Rng, ctx: &B11, scale: u64) -> String {
+	let hrp0: RawHrp = "lnbc".parse().unwrap();
+	// ---- (8a) timestamps: every base-32 digit boundary, the ends of the 35-bit range, beyond it
+	let mut tss: Vec<u64> = vec![0, 1, 2, WIRE_TS_MAX - 1, WIRE_TS_MAX, WIRE_TS_MAX + 1, WIRE_TS_MAX + 2, 1 << 36, 1 << 40, 1 << 63, u64::MAX - 1, u64::MAX];
+	for k in 1..=8u32 { let b = 32u64.pow(k); tss.extend_from_slice(&[b - 1, b, b + 1]); }
+	for _ in 0..(20 * scale) { tss.push(rng.below(WIRE_TS_MAX + 1)); tss.push(WIRE_TS_MAX - rng.below(64)); tss.push(WIRE_TS_MAX + 1 + rng.below(64)); tss.push(rng.next() >> rng.below(30)); }
+	let (mut n_ts_ok, mut n_ts_rej) = (0u64, 0u64);
+	for ts in tss {
+		ts_case(rec, ts);
+		// the full builder on the same value
+		let b = InvoiceBuilder::new(Currency::Bitcoin).description("t".into()).payment_hash(PaymentHash([5; 32])).payment_secret(PaymentSecret([6; 32]))
+			.duration_since_epoch(Duration::from_secs(ts)).min_final_cltv_expiry_delta(144);
+		match guarded(AssertUnwindSafe(|| b.build_signed(|m| ctx.secp.sign_ecdsa_recoverable(m, &ctx.sk)))) {
+			Err(p) => ofail(rec, format!("InvoiceBuilder panicked for timestamp {}: {}", ts, p)),
+			Ok(Err(e)) => { n_ts_rej += 1; if ts <= WIRE_TS_MAX { ofail(rec, format!("builder rejected a timestamp the wire format can carry ({:?}): {}", e, ts)); } },
+			Ok(Ok(inv)) => {
+				n_ts_ok += 1;
+				if ts > WIRE_TS_MAX { ofail(rec, format!("builder accepted a timestamp the 35-bit field cannot carry: {}", ts)); }
+				let s = inv.to_string();
+				match guarded(AssertUnwindSafe(|| s.parse::<Bolt11Invoice>())) {
+					Err(p) => ofail(rec, format!("parser panicked on a checksum-valid string ({}) built with timestamp {}: {}", p, ts, s)),
+					Ok(Err(e)) => ofail(rec, format!("parse(serialize(x)) fails ({:?}) for timestamp {}: {}", e, ts, s)),
+					Ok(Ok(back)) => if back != inv || back.duration_since_epoch() != Duration::from_secs(ts) || back.timestamp() != std::time::UNIX_EPOCH + Duration::from_secs(ts) {
+						ofail(rec, format!("parse(serialize(x)) != x for timestamp {}: {}", ts, s)); },
+				}
+				if let Some(signed) = emit_b11(rec, &s, "bound:ts:") { emit_sem(rec, &s, &signed, "bound:ts:"); }
+			},
+		}
+	}
+	// ---- (8b) expiry / min_final_cltv_expiry_delta: all of u64, digit boundaries
+	let mut vals: Vec<u64> = vec![0, 1, 2, 17, 18, 3599, 3600, 3601, u64::MAX / 2, (1 << 63) - 1, 1 << 63, u64::MAX - 1, u64::MAX];
+	for k in 1..=12u32 { let b = 32u64.pow(k); vals.extend_from_slice(&[b - 1, b, b + 1]); }
+	for _ in 0..(30 * scale) { vals.push(rng.next() >> rng.below(64)); }
+	let n_int = vals.len();
+	for v in vals {
+		// announced length + digits of an `x` field, straight from the serialiser
+		let raw = RawBolt11Invoice { hrp: hrp0.clone(), data: RawDataPart { timestamp: PositiveTimestamp::from_unix_timestamp(1).unwrap(),
+			tagged_fields: vec![RawTaggedField::KnownSemantics(TaggedField::ExpiryTime(ExpiryTime::from_seconds(v)))] } };
+		match guarded(AssertUnwindSafe(|| raw.to_raw().1.iter().map(|x| x.to_u8()).collect::<Vec<u8>>())) {
+			Err(p) => ofail(rec, format!("serialiser panicked ({}) for expiry {}", p, v)),
+			Ok(syms) => {
+				let announced = syms[8] as usize * 32 + syms[9] as usize;
+				if syms[7] != 6 || announced != syms.len() - 10 { ofail(rec, format!("expiry {}: announced field length {} but {} symbols written", v, announced, syms.len() - 10)); }
+				rec.case(&format!("intenc {}", v), &format!("{} {}", announced, hex(&syms[10..])), "intenc", true);
+			},
+		}
+		let raw = RawBolt11Invoice { hrp: hrp0.clone(), data: RawDataPart { timestamp: PositiveTimestamp::from_unix_timestamp(v % (WIRE_TS_MAX + 1)).unwrap_or(PositiveTimestamp::from_unix_timestamp(0).unwrap()),
+			tagged_fields: minimal_fields(vec![TaggedField::ExpiryTime(ExpiryTime::from_seconds(v)), TaggedField::MinFinalCltvExpiryDelta(MinFinalCltvExpiryDelta(v))]) } };
+		raw_roundtrip(rec, ctx, raw, &format!("expiry = min_final_cltv = {}", v));
+		// through the builder and the accessors (incl. the overflow-prone expiry arithmetic)
+		let b = InvoiceBuilder::new(Currency::Regtest).description("e".into()).payment_hash(PaymentHash([7; 32])).payment_secret(PaymentSecret([8; 32]))
+			.duration_since_epoch(Duration::from_secs(*rng.pick(&[0u64, 1, WIRE_TS_MAX - 1, WIRE_TS_MAX]))).min_final_cltv_expiry_delta(v).expiry_time(Duration::new(v, 999_999_999));
+		match guarded(AssertUnwindSafe(|| b.build_signed(|m| ctx.secp.sign_ecdsa_recoverable(m, &ctx.sk)))) {
+			Err(p) => ofail(rec, format!("InvoiceBuilder panicked for expiry/cltv {}: {}", v, p)),
+			Ok(Err(e)) => ofail(rec, format!("builder rejected expiry/cltv {} ({:?})", v, e)),
+			Ok(Ok(inv)) => {
+				let s = inv.to_string();
+				match guarded(AssertUnwindSafe(|| s.parse::<Bolt11Invoice>())) {
+					Err(p) => ofail(rec, format!("parser panicked on a checksum-valid string ({}) built with expiry/cltv {}: {}", p, v, s)),
+					Ok(Err(e)) => ofail(rec, format!("parse(serialize(x)) fails ({:?}) for expiry/cltv {}: {}", e, v, s)),
+					Ok(Ok(back)) => {
+						if back != inv || back.expiry_time() != Duration::from_secs(v) || back.min_final_cltv_expiry_delta() != v { ofail(rec, format!("parse(serialize(x)) != x for expiry/cltv {}: {}", v, s)); }
+						if let Err(p) = guarded(AssertUnwindSafe(|| (back.expires_at(), back.is_expired(), back.duration_until_expiry(), back.would_expire(Duration::from_secs(v)),
+							back.expiration_remaining_from_epoch(Duration::from_secs(u64::MAX)), back.would_expire(Duration::new(u64::MAX, 999_999_999))))) {
+							ofail(rec, format!("expiry accessors panicked ({}) for expiry {}: {}", p, v, s)); }
+					},
+				}
+				emit_b11(rec, &s, "bound:int:");
+			},
+		}
+	}
+	// ---- (8c) lengths: description / metadata bytes, route hops
+	for n in [0usize, 1, 2, 637, 638, 639, 640, 641, 1000, 1023, 1024, 5000] { len_case(rec, "dlen", n); len_case(rec, "mlen", n); }
+	for n in 0..=16usize { len_case(rec, "hops", n); }
+	for n in [0usize, 1, 638, 639] {
+		let d: String = (0..n).map(|i| if n == 639 && i % 3 == 0 { 'z' } else { 'y' }).collect();
+		let d = match Description::new(d) { Ok(d) => d, Err(e) => { ofail(rec, format!("builder rejected a description the wire format can carry ({:?}): {} bytes", e, n)); continue; } };
+		let raw = RawBolt11Invoice { hrp: hrp0.clone(), data: RawDataPart { timestamp: PositiveTimestamp::from_unix_timestamp(WIRE_TS_MAX).unwrap_or(PositiveTimestamp::from_unix_timestamp(0).unwrap()),
+			tagged_fields: vec![RawTaggedField::KnownSemantics(TaggedField::PaymentHash(PaymentHash([3; 32]))), RawTaggedField::KnownSemantics(TaggedField::Description(d)),
+				RawTaggedField::KnownSemantics(TaggedField::PaymentMetadata(rng.bytes(n)))] } };
+		raw_roundtrip(rec, ctx, raw, &format!("description and metadata of {} bytes", n));
+	}
+	for n in [0usize, 1, 11, 12] {
+		let hops: Vec<RouteHintHop> = (0..n).map(|_| RouteHintHop { src_node_id: rand_pubkey(rng, &ctx.secp), short_channel_id: *rng.pick(&[0u64, u64::MAX, 1]), fees: RoutingFees { base_msat: u32::MAX, proportional_millionths: 0 },
+			cltv_expiry_delta: u16::MAX, htlc_minimum_msat: None, htlc_maximum_msat: None }).collect();
+		let raw = RawBolt11Invoice { hrp: hrp0.clone(), data: RawDataPart { timestamp: PositiveTimestamp::from_unix_timestamp(0).unwrap(),
+			tagged_fields: minimal_fields(vec![TaggedField::PrivateRoute(match PrivateRoute::new(RouteHint(hops)) { Ok(r) => r,
+				Err(e) => { ofail(rec, format!("builder rejected a route the wire format can carry ({:?}): {} hops", e, n)); continue; } })]) } };
+		raw_roundtrip(rec, ctx, raw, &format!("private route of {} hops", n));
+	}
+
+	// fallback addresses at the ends of the witness-program range (BIP-141: 2..=40 bytes, versions 0..=16)
+	for (ver, n) in [(0u8, 2usize), (0, 20), (0, 32), (0, 40), (1, 2), (1, 32), (1, 40), (16, 2), (16, 40), (15, 39), (2, 3)] {
+		let raw = RawBolt11Invoice { hrp: hrp0.clone(), data: RawDataPart { timestamp: PositiveTimestamp::from_unix_timestamp(2).unwrap(),
+			tagged_fields: minimal_fields(vec![TaggedField::Fallback(Fallback::SegWitProgram { version: WitnessVersion::try_from(ver).unwrap(), program: rng.bytes(n) }),
+				TaggedField::Fallback(Fallback::PubKeyHash(PubkeyHash::from_slice(&rng.bytes(20)).unwrap())), TaggedField::Fallback(Fallback::ScriptHash(ScriptHash::from_slice(&rng.bytes(20)).unwrap()))]) } };
+		raw_roundtrip(rec, ctx, raw, &format!("segwit v{} fallback with a {}-byte program", ver, n));
+	}
+
+	// ---- (9) malformed streams: correctly checksummed strings with extreme data parts
+	let ts_pool: Vec<Vec<u8>> = vec![vec![31; 7], vec![0; 7], vec![31, 31, 31, 31, 31, 31, 30], vec![0, 0, 0, 0, 0, 0, 1], vec![16, 0, 0, 0, 0, 0, 0], vec![15, 31, 31, 31, 31, 31, 31]];
+	let mut n_mal = 0u64;
+	let mut feed = |rec: &mut Rec, rng: &mut Rng, hrp: &str, data: Vec<u8>, sig_kind: u64, class: &str| {
+		let mut all = data.clone();
+		match sig_kind { 0 => all.extend(bytes_to_syms(&sign_data(ctx, hrp, &data))), 1 => all.extend(vec![0u8; 104]), 2 => all.extend(vec![31u8; 104]),
+			3 => { let mut v = rng.bytes(64); v[0] &= 0x7f; v[32] &= 0x7f; v.push(rng.below(4) as u8); all.extend(bytes_to_syms(&v)); }, _ => {} }
+		if hrp.len() + 1 + all.len() + 6 > 7089 + 3 { return; }
+		let s = encode(hrp, &all);
+		n_mal += 1;
+		emit_b11(rec, &s, class);
+		if let Err(p) = guarded(AssertUnwindSafe(|| { let _ = s.parse::<Bolt11Invoice>().map(|i| (i.amount_milli_satoshis(), i.expiry_time(), i.expires_at(), i.min_final_cltv_expiry_delta(), i.route_hints(), i.fallback_addresses(), i.get_payee_pub_key(), i.to_string())); })) {
+			ofail(rec, format!("Bolt11Invoice::from_str / accessors panicked on a checksum-valid string ({}): {}", p, s)); }
+	};
+	// the timestamp field alone, every extreme, every signature kind
+	for ts in ts_pool.iter() { for sk in 0..5 { feed(rec, rng, "lnbc", ts.clone(), sk, "mal:ts:"); } }
+	for cut in 0..7usize { feed(rec, rng, "lnbc", vec![31; cut], 4, "mal:ts:"); feed(rec, rng, "lnbc", vec![31; cut], 1, "mal:ts:"); }
+	// every tag x payload length x fill, exact length field
+	let lens = [0usize, 1, 2, 7, 12, 13, 14, 32, 33, 51, 52, 53, 54, 82, 83, 103, 104, 105, 1022, 1023];
+	for tag in 0..32u8 {
+		for (li, len) in lens.iter().enumerate() {
+			for fill in 0..3u8 {
+				if scale == 1 && *len >= 1022 && fill == 2 && tag % 4 != 1 { continue; }
+				let payload: Vec<u8> = match fill { 0 => vec![0; *len], 1 => vec![31; *len], _ => (0..*len).map(|_| rng.below(32) as u8).collect() };
+				let mut data = ts_pool[(tag as usize + li + fill as usize) % ts_pool.len()].clone();
+				data.push(tag); data.push((*len / 32) as u8); data.push((*len % 32) as u8); data.extend(payload);
+				let h = *rng.pick(&["lnbc", "lntb1m", "lnbcrt2500u"]);
+				feed(rec, rng, h, data, if *len >= 1022 { 1 } else { (tag as u64 + fill as u64) % 4 }, "mal:field:");
+			}
+		}
+	}
+	// u64 digit boundaries of `x` / `c`: u64::MAX exactly, 2^64, 13 and 14 all-ones digits, leading zeros
+	for tag in [6u8, 24] {
+		let mut pls: Vec<Vec<u8>> = vec![vec![15, 31, 31, 31, 31, 31, 31, 31, 31, 31, 31, 31, 31], vec![16, 0, 0, 0, 0, 0, 0, 0, 0, 0, 0, 0, 0], vec![31; 13], vec![31; 14], vec![1; 14], vec![31; 12]];
+		pls.push([vec![0u8; 20], vec![15u8], vec![31u8; 12]].concat()); pls.push([vec![0u8; 1010], vec![31u8; 13]].concat()); pls.push([vec![0u8; 1010], vec![15u8], vec![31u8; 12]].concat());
+		for p in pls { let mut data = vec![0u8; 7]; data.push(tag); data.push((p.len() / 32) as u8); data.push((p.len() % 32) as u8); data.extend(p); feed(rec, rng, "lnbc", data, 0, "mal:int:"); }
+	}
+	// a valid field followed by a field cut at every position / with a length pointing past the end
+	for tag in [1u8, 13, 19, 23, 6, 24, 9, 3, 16, 27, 5, 0, 31] {
+		let len = *rng.pick(&[1usize, 20, 52, 53, 102]);
+		let mut full = vec![0u8; 7];
+		full.extend_from_slice(&[13, 0, 2, 12, 16]);
+		full.push(tag); full.push((len / 32) as u8); full.push((len % 32) as u8); full.extend((0..len).map(|_| rng.below(32) as u8));
+		let cuts: Vec<usize> = if scale > 1 || tag == 1 { (7..full.len()).collect() } else { vec![7, 8, 9, 12, 13, 14, 15, 16, full.len() - 1] };
+		for cut in cuts { let sk = *rng.pick(&[1u64, 4]); feed(rec, rng, "lnbc", full[..cut.min(full.len())].to_vec(), sk, "mal:cut:"); }
+		for over in [1usize, 2, 31, 1023 - len] { let mut d = full.clone(); let l2 = len + over; d[13] = (l2 / 32) as u8; d[14] = (l2 % 32) as u8; feed(rec, rng, "lnbc", d, 1, "mal:overlen:"); }
+	}
+	// several maximal fields, up to and beyond MAX_LENGTH
+	for n_fields in [1usize, 2, 5, 6, 7] {
+		for tag in [13u8, 27, 3, 9, 2] {
+			let mut data = vec![31u8; 7];
+			for k in 0..n_fields { let len = if k + 1 == n_fields { 1023 - 5 * (n_fields % 3) } else { 1023 }; data.push(tag); data.push((len / 32) as u8); data.push((len % 32) as u8); data.extend(vec![if tag == 13 { 12 } else { 31 }; len]); }
+			feed(rec, rng, "lnbc", data, 1, "mal:big:");
+		}
+	}
+	// random mixtures of the above ingredients
+	for _ in 0..(150 * scale) {
+		let mut data = rng.pick(&ts_pool).clone();
+		for _ in 0..rng.below(4) {
+			let tag = if rng.chance(1, 2) { *rng.pick(&[1u8, 13, 19, 23, 6, 24, 9, 3, 16, 27, 5]) } else { rng.below(32) as u8 };
+			let len = *rng.pick(&[0usize, 1, 13, 14, 52, 53, 82, 1023, 40, 7]);
+			let fill = rng.below(3);
+			data.push(tag); data.push((len / 32) as u8); data.push((len % 32) as u8);
+			data.extend((0..len).map(|_| match fill { 0 => 0, 1 => 31, _ => rng.below(32) as u8 }));
+		}
+		if rng.chance(1, 5) { let n = rng.below(data.len() as u64 + 1) as usize; data.truncate(n); }
+		let sk = rng.below(5);
+		let h = *rng.pick(&["lnbc", "lntbs", "lnbc1p", "lnsb20m"]);
+		feed(rec, rng, h, data, sk, "mal:mix:");
+	}
+	format!("timestamps: builder accepted {} / rejected {}; expiry+cltv values {}; malformed checksummed strings {}", n_ts_ok, n_ts_rej, n_int, n_mal)
+}
+
 fn run_b11(args: &Args) {
 	let mut rec = Rec::new(&args.out, "c18b11");
 	let mut rng = Rng::new(args.seed);
@@ -264,9 +576,21 @@ fn run_b11(args: &Args) {
 	let scale = args.scale * if args.thorough { 10 } else { 1 };
 
 	// (1) InvoiceBuilder over its input space
-	let n_build = 60 * scale;
+	let n_build = 70 * scale;
 	for k in 0..n_build {
-		let (inv, want) = match build_invoice(&mut rng, &ctx) { Some(x) => x, None => { rec.discarded += 1; continue; } };
+		let (inv, want) = match guarded(AssertUnwindSafe(|| build_invoice(&mut rng, &ctx))) {
+			Err(p) => { rec.oracle_fail(format!("InvoiceBuilder panicked: {}", p)); continue; },
+			Ok(Ok(x)) => { builder_verdict_oracle(&mut rec, &x.1, Ok(())); x },
+			Ok(Err((e, w))) => {
+				// a rejected build is an outcome to be explained, not a discarded case
+				builder_verdict_oracle(&mut rec, &w, Err(&e));
+				ts_case(&mut rec, w.ts);
+				if let Some(a) = w.amount { let r = InvoiceBuilder::new(Currency::Bitcoin).amount_milli_satoshis(a).duration_since_epoch(Duration::from_secs(1)).build_raw();
+					rec.case(&format!("amt bc {}", a), &match r { Ok(raw) => format!("ok {}", raw.hrp.to_string()), Err(_) => "err InvalidAmount".to_string() }, "built:rejected:amt", true); }
+				if let Some(m) = &w.meta { len_case(&mut rec, "mlen", m.0.len()); }
+				continue;
+			},
+		};
 		roundtrip_oracle(&mut rec, &inv, &want, &ctx);
 		let s = inv.to_string();
 		ctx.n_ok += 1;
@@ -327,7 +651,8 @@ fn run_b11(args: &Args) {
 			1 => format!("ln{}{}", rng.pick(&["bc", "tb", "bcrt", "sb", "tbs"]), rng.next()),
 			_ => format!("ln{}{}{}", rng.pick(&["bc", "tb", "bcrt", "sb", "tbs"]), if rng.chance(1, 4) { String::new() } else { (rng.next() >> rng.below(64)).to_string() }, rng.pick(&["", "m", "u", "n", "p", "p"])),
 		};
-		let mut data: Vec<u8> = (0..7).map(|_| rng.below(32) as u8).collect();
+		let mut data: Vec<u8> = match rng.below(8) { 0 => vec![31; 7], 1 => vec![0; 7], 2 => vec![31, 31, 31, 31, 31, 31, 30], 3 => { let mut v = vec![0u8; 7]; let i = rng.below(7) as usize; v[i] = 1 + rng.below(31) as u8; v },
+			_ => (0..7).map(|_| rng.below(32) as u8).collect() };
 		let n_fields = rng.below(7);
 		for _ in 0..n_fields {
 			let tag = if rng.chance(3, 4) { *rng.pick(&[1u8, 13, 19, 23, 6, 24, 9, 3, 16, 27, 5]) } else { rng.below(32) as u8 };
@@ -496,7 +821,11 @@ fn run_b11(args: &Args) {
 		}
 	}
 
-	rec.notes.insert("rule".into(), "InvoiceBuilder over PRNG-drawn amount(0..max)/timestamp/expiry/description|hash/fallbacks/route hints/metadata/mpp/payee-by-n|recovery in 3 call orders, signed with a fixed key; every built string: parse dump + re-serialisation, every single-character change (all positions for the first invoices, sampled after), single-symbol and HRP changes with recomputed checksum classified into {error, other recovered payee, identical signed content}; synthetic raw invoices with unknown/wrong-length/non-canonical/hard-error fields and arbitrary signatures; arbitrary strings; HRP/amount sweep; 5<->8 bit regrouping".into());
+	// (8) numeric boundaries of every field, (9) malformed checksummed streams
+	let bstats = run_bounds(&mut rec, &mut rng, &ctx, scale);
+
+	rec.notes.insert("rule".into(), "InvoiceBuilder over PRNG-drawn amount(0..max)/timestamp/expiry/description|hash/fallbacks/route hints/metadata/mpp/payee-by-n|recovery in 3 call orders, signed with a fixed key; every built string: parse dump + re-serialisation, every single-character change (all positions for the first invoices, sampled after), single-symbol and HRP changes with recomputed checksum classified into {error, other recovered payee, identical signed content}; synthetic raw invoices with unknown/wrong-length/non-canonical/hard-error fields and arbitrary signatures; arbitrary strings; HRP/amount sweep; 5<->8 bit regrouping; numeric boundaries: timestamps 0,1,32^k-1,32^k,2^35-2,2^35-1 accepted + round trip, 2^35.. rejected; expiry / min_final_cltv 0..u64::MAX at every base-32 digit boundary; description / metadata 639|640 bytes, routes 12|13 hops; malformed checksummed streams: all-ones / all-zero timestamps, every tag with 0..1023-symbol all-zero / all-ones / random payloads, truncation at every cut, over-long declared lengths, u64 overflow digits, strings up to MAX_LENGTH; rejected builds are explained, not discarded".into());
+	rec.notes.insert("boundaries".into(), bstats);
 	rec.notes.insert("built_invoices".into(), ctx.n_ok.to_string());
 	rec.notes.insert("single_char_mutants".into(), ctx.n_mut1.to_string());
 	rec.notes.insert("rechecksummed_mutants".into(), format!("{} (error {}, other payee {}, identical signed content {})", ctx.n_mut2, ctx.outcomes[0], ctx.outcomes[1], ctx.outcomes[2]));
